@@ -413,7 +413,10 @@ func runEnv(c EnvCase) (res vh.Result) {
 		cd[k] = v
 	}
 	cd["it"] = "CD-it"
-	cmdTpl := []string{"it=<{{ it }}>"}
+	// a default of the task template that is itself an expression over the role's variables: resolved per task, against the stack of
+	// the role that runs it (the template object is shared by all tasks of the class)
+	cd["kx"] = "X{{ it }}"
+	cmdTpl := []string{"it=<{{ it }}>", "kx=<{{ kx }}>"}
 	props := "properties:\n"
 	for _, k := range keys {
 		cmdTpl = append(cmdTpl, k+"=<{{ "+k+" }}>")
@@ -531,6 +534,7 @@ func runEnv(c EnvCase) (res vh.Result) {
 		return fail("api-error", "GetEnvironment: %v", err)
 	}
 	innerOf := map[string]string{} // task id -> value of the inner iteration variable
+	itOf := map[string]string{}    // task id -> "it" in the consolidated stack of its role ("" = not defined by the workflow)
 	var walk func(r *pb.RoleInfo, lvl int) string
 	walk = func(r *pb.RoleInfo, lvl int) string {
 		if strings.HasPrefix(r.Name, "probe") {
@@ -560,6 +564,9 @@ func runEnv(c EnvCase) (res vh.Result) {
 				innerOf[id] = want
 			}
 		}
+		for _, id := range r.TaskIds {
+			itOf[id] = r.ConsolidatedStack["it"]
+		}
 		for _, ch := range r.Roles {
 			if v := walk(ch, lvl+1); v != "" {
 				return v
@@ -587,6 +594,15 @@ func runEnv(c EnvCase) (res vh.Result) {
 		val, _ := t.Cmd["value"].(string)
 		if want, ok := innerOf[t.ID]; ok && !strings.Contains(val, "it=<"+want+">") {
 			return fail("task-iterator-local", "task %s of the role generated for it=%q was launched with %q", t.ID, want, val)
+		}
+		if it, known := itOf[t.ID]; known {
+			want := "X" + it
+			if it == "" {
+				want = "XCD-it"
+			}
+			if !strings.Contains(val, "kx=<"+want+">") {
+				return fail("template-default-expression", "task %s, whose role has it=%q, was launched with %q; the task template's default kx: \"X{{ it }}\" should have given kx=<%s>", t.ID, it, val, want)
+			}
 		}
 		for _, key := range keys {
 			if want, ok := taskWant(key); ok && !strings.Contains(val, key+"=<"+want+">") {
